@@ -63,7 +63,7 @@ def run(tier, seed):
     from props.C08 import LAYCOMBOS
     jobs += [{'id': 'h_%d_%d_L%d' % (m, d, lay), 'harness': 'vh_hash', 'args': [2, m, d, lay], 'summaries': SUMM} for lay in (1, 2, 3, 4) for (m, d) in LAYCOMBOS]
     from props.C08 import TWICE
-    jobs += [{'id': 'tw_%d_%d_%d' % (m, d, mode), 'harness': 'vh_hash_twice', 'args': [2, m, d, mode], 'summaries': SUMM} for mode in (0, 1, 2) for (m, d) in TWICE]
+    jobs += [{'id': 'tw_%d_%d_%d' % (m, d, mode), 'harness': 'vh_hash_twice', 'args': [2, m, d, mode], 'summaries': SUMM} for mode in (0, 1, 2, 3, 4) for (m, d) in (TWICE if mode < 4 else [(3, 33)])]
     jobs += [{'id': 'nodst%d' % i, 'harness': 'vh_hash_nodst', 'args': [2, 3, i], 'summaries': SUMM} for i in (0, 1)]
     runs = ck.absorb(core.symx_parallel(HARNESS, jobs, chunks=12))
     ck.extra['_runs'] = runs
@@ -81,8 +81,8 @@ def run(tier, seed):
     for lay in (1, 2, 3, 4):
         for (m, d) in LAYCOMBOS:
             check_one(ck, R_['h_%d_%d_L%d' % (m, d, lay)], m, d, failures, lay)
-    for mode in (0, 1, 2):
-        for (m, d) in TWICE:
+    for mode in (0, 1, 2, 3, 4):
+        for (m, d) in (TWICE if mode < 4 else [(3, 33)]):
             check_one(ck, R_['tw_%d_%d_%d' % (m, d, mode)], m, d, failures, lay=0, label='second-call%d' % mode)
     # OS2IP split lemma
     ck.prove('C09.split', 'OS2IP(48 bytes) = a + b*2^192', '(declare-const a (_ BitVec 192))(declare-const b (_ BitVec 192))\n(assert (not (= (concat b a) (bvadd ((_ zero_extend 192) a) (bvshl ((_ zero_extend 192) b) (_ bv192 384))))))', timeout=30)
